@@ -40,6 +40,11 @@ spec fn within(r: Range<usize>, c: int) -> bool {
     r.start <= c < r.end
 }
 
+/// column c is covered by the vector or by the range still to be inserted
+spec fn cov_or(rs: Seq<Range<usize>>, new: Range<usize>, c: int) -> bool {
+    covered(rs, c) || within(new, c)
+}
+
 /// one merge step: range i touches `new`; it leaves the vector and `new` becomes the hull
 proof fn lemma_merge_step(rs: Seq<Range<usize>>, i: int, new: Range<usize>)
     requires
@@ -52,7 +57,7 @@ proof fn lemma_merge_step(rs: Seq<Range<usize>>, i: int, new: Range<usize>)
         ranges_wf(rs.remove(i)),
         hull(new, rs[i]).start < hull(new, rs[i]).end,
         forall|j: int| 0 <= j < i ==> apart(#[trigger] rs.remove(i)[j], hull(new, rs[i])),
-        forall|c: int| (covered(rs.remove(i), c) || within(hull(new, rs[i]), c)) <==> (covered(rs, c) || within(new, c)),
+        forall|c: int| #[trigger] cov_or(rs.remove(i), hull(new, rs[i]), c) <==> cov_or(rs, new, c),
 {
     let r2 = rs.remove(i);
     let n2 = hull(new, rs[i]);
@@ -61,7 +66,7 @@ proof fn lemma_merge_step(rs: Seq<Range<usize>>, i: int, new: Range<usize>)
         assert(apart(rs[j], new));
         assert(rs[j].end < rs[i].start);
     }
-    assert forall|c: int| (covered(r2, c) || within(n2, c)) <==> (covered(rs, c) || within(new, c)) by {
+    assert forall|c: int| #[trigger] cov_or(r2, n2, c) <==> cov_or(rs, new, c) by {
         if covered(r2, c) {
             let j = choose|j: int| 0 <= j < r2.len() && (#[trigger] r2[j]).start <= c < r2[j].end;
             if j < i { assert(rs[j] == r2[j]); } else { assert(rs[j + 1] == r2[j]); }
@@ -84,7 +89,7 @@ proof fn lemma_inserted(rs: Seq<Range<usize>>, p: int, new: Range<usize>)
         p < rs.len() ==> rs[p].start >= new.start,
     ensures
         ranges_wf(rs.insert(p, new)),
-        forall|c: int| covered(rs.insert(p, new), c) <==> (covered(rs, c) || within(new, c)),
+        forall|c: int| #[trigger] covered(rs.insert(p, new), c) <==> cov_or(rs, new, c),
 {
     let r2 = rs.insert(p, new);
     assert forall|j: int| 0 <= j < r2.len() implies r2[j] == (if j < p { rs[j] } else if j == p { new } else { rs[j - 1] }) by {}
@@ -101,7 +106,7 @@ proof fn lemma_inserted(rs: Seq<Range<usize>>, p: int, new: Range<usize>)
             assert(rs[x - 1].end < rs[y - 1].start);
         }
     }
-    assert forall|c: int| covered(r2, c) <==> (covered(rs, c) || within(new, c)) by {
+    assert forall|c: int| #[trigger] covered(r2, c) <==> cov_or(rs, new, c) by {
         if covered(r2, c) {
             let j = choose|j: int| 0 <= j < r2.len() && (#[trigger] r2[j]).start <= c < r2[j].end;
             if j < p { assert(rs[j] == r2[j]); } else if j > p { assert(rs[j - 1] == r2[j]); }
@@ -136,14 +141,14 @@ proof fn lemma_inserted(rs: Seq<Range<usize>>, p: int, new: Range<usize>)
             new.start < new.end, // [Dc.inv.new_nonempty]
             0 <= i <= ranges@.len(),
             forall|j: int| 0 <= j < i ==> apart(#[trigger] ranges@[j], new), // [Dc.inv.scanned_are_apart]
-            forall|c: int| (covered(ranges@, c) || within(new, c)) <==> (covered(old(ranges)@, c) || within(new0, c)), // [Dc.inv.union_preserved]
+            forall|c: int| #[trigger] cov_or(ranges@, new, c) <==> cov_or(old(ranges)@, new0, c), // [Dc.inv.union_preserved]
         decreases ranges@.len() - i, // [Dc.term.merge_loop]
 //@edit rule=ghost before=<<{ position += 1;>>
         invariant
             ranges_wf(ranges@),
             new.start < new.end,
             forall|j: int| 0 <= j < ranges@.len() ==> apart(#[trigger] ranges@[j], new), // [Dc.inv.all_apart]
-            forall|c: int| (covered(ranges@, c) || within(new, c)) <==> (covered(old(ranges)@, c) || within(new0, c)),
+            forall|c: int| #[trigger] cov_or(ranges@, new, c) <==> cov_or(old(ranges)@, new0, c),
             0 <= position <= ranges@.len(),
             forall|j: int| 0 <= j < position ==> (#[trigger] ranges@[j]).start < new.start, // [Dc.inv.position_after_smaller]
         decreases ranges@.len() - position, // [Dc.term.position_loop]
